@@ -556,7 +556,7 @@ func TestVerifC16(t *testing.T) {
 	}
 	vC16Matrix(k)
 	vC16Crafted(k)
-	n := k.N(3000, 40000)
+	n := k.N(3000, 30000)
 	for i := 0; i < n; i++ {
 		runOne(vC16GenStruct(k, k.rnd))
 	}
